@@ -5,6 +5,7 @@
 #include "vh.hpp"
 #include "radial.hpp"
 #include "verif_hooks.hpp"
+#include "Faddeeva.hpp"
 using namespace vh;
 int main(int argc, char** argv) {
   if (argc < 3) return 2;
@@ -34,6 +35,9 @@ int main(int argc, char** argv) {
     run(true, false, true, vnsnt, cx, tx, ix);     // both
     run(true, true, true, vq, cx, tx, ix);         // quadrature forced, nothing screened or cut
     std::fprintf(f, "case %s\nint N %d\nint l1 %d\nint l2 %d\nint nraw %d\nint closed %ld\nint tailfired %ld\nint taillast %d\n", id.c_str(), N, l1, l2, nraw, c0, t0, i0);
+    // leaves for the numeric model of the closed-form path: the Dawson function at the two arguments the source forms
+    { double p = zeta + a + b, x = a * A, y = b * B, P1 = (x + y) / p, P2 = (y - x) / p, rp = std::sqrt(p);
+      std::fprintf(f, "mat daw 1 4 %a %a %a %a\nint nbase %d\n", rp * P1, rp * P2, Faddeeva::Dawson(rp * P1), Faddeeva::Dawson(rp * P2), nbase); }
     std::fprintf(f, "mat prm 1 5 %a %a %a %a %a\nmat val 1 5 %a %a %a %a %a\nend\n", zeta, a, b, A, B, v0, vnt, vns, vnsnt, vq);
   }
   std::fclose(f); return 0;
